@@ -337,6 +337,8 @@ class Link:
         self.attempt = None
         self.tamper = None          # optional callable(end_to, data) -> data
         self.chunker = None         # optional callable(end, n, tape) -> k
+        self.owner = None           # set by worlds
+        self.picker = None          # message mode: callable(end) -> index
         self.label = None
 
     def kill_from_client_attempt(self):
@@ -505,7 +507,10 @@ class Net:
             del end.inflight[:k]
             end.rx_count += len(data)
         else:
-            data = end.inflight.pop(0)
+            idx = 0
+            if link.picker is not None and len(end.inflight) > 1:
+                idx = link.picker(end)
+            data = end.inflight.pop(idx)
             end.rx_count += 1
         proto = end.protocol
         try:
@@ -769,8 +774,8 @@ class Sim:
 
     def _chunk(self, end):
         n = len(end.inflight)
-        if n <= 1:
-            return n
+        if n <= 1 or end.link.mode != "stream":
+            return 1
         mode = self.chunk_mode
         if end.link.chunker is not None:
             return max(1, min(n, end.link.chunker(end, n, self.tape)))
